@@ -652,13 +652,13 @@ func (r *Run) sprintf(format string, args Slice) Value {
 	}
 	out := &SymStr{n: int64(0)}
 	appendStr := func(v Value) bool {
+		if _, ok := out.n.(int64); !ok {
+			return false // nothing can be appended after a symbolic-length piece
+		}
 		switch x := v.(type) {
 		case string:
 			out = asSym(concatStr(out, strToSym(x)))
 		case *SymStr:
-			if _, ok := out.n.(int64); !ok {
-				return false
-			}
 			out = asSym(concatStr(out, x))
 		default:
 			return false
